@@ -1,4 +1,5 @@
 import OsmtProofs.Itp
+import OsmtProofs.ItpPath
 import OsmtProofs.LA
 import OsmtProofs.Smt
 /-!
@@ -14,7 +15,10 @@ Three layers.
    inconsistent with B, and over shared variables.  All proofs, all labellings.
 3. `C08_farkas_interpolant` / `C08_farkas_dual_interpolant`: for LRA conflicts, the weighted sum of the A-part of a Farkas
    refutation (resp. the negated sum of the B-part) is an interpolant, for all weights.
-Layers 2 and 3 are theorems about the model of the algorithms; layer 1 is what ties each run to the semantics.
+4. `C09_labelled_path_step`: for one refutation labelled for two consecutive cuts (A₁ | G ∪ B₂) and (A₁ ∪ G | B₂) whose occurrence
+   labels fit together (`Itp.pairOK`: McMillan, Pudlák, McMillan' applied to both cuts do), I₁ ∧ G ⊨ I₂ — the path property, for
+   every refutation and every such labelling.
+Layers 2, 3 and 4 are theorems about the model of the algorithms; layer 1 is what ties each run to the semantics.
 -/
 namespace Osmt.Properties
 open Osmt
@@ -98,5 +102,23 @@ example :
     let lab : Itp.Var → Itp.Lbl := fun _ => ⟨false, true⟩
     let n := Itp.Node.res (.leafA [⟨0, false⟩] lab) (.leafB [⟨0, true⟩] lab) 0
     n.clause = [] ∧ n.itp.eval (fun _ => true) = true ∧ n.itp.eval (fun _ => false) = false := by decide
+
+/-- **C09, algorithm level.**  Sequence interpolants computed from one refutation by a labelled interpolation system with fitting
+labels satisfy the path condition between consecutive cuts: I_j together with the middle group implies I_{j+1}. -/
+theorem C09_labelled_path_step (G : Itp.Asg → Prop) (n : Itp.Node2) (hl : n.labelsOK = true) (hs : n.proj1.structOk = true)
+    (hm : n.middleOk G) (hempty : n.proj1.clause = []) :
+    ∀ σ, G σ → n.proj1.itp.eval σ = true → n.proj2.itp.eval σ = true :=
+  Itp.path_step G n hl hs hm hempty
+
+/-- non-vacuity: groups {p}, {¬p ∨ q}, {¬q}; McMillan's labels for both cuts; I₁ = p, I₂ = q -/
+example :
+    let l1 : Itp.Labs := [(0, ⟨false, true⟩, ⟨true, false⟩)]
+    let l2 : Itp.Labs := [(0, ⟨false, true⟩, ⟨true, false⟩), (1, ⟨false, true⟩, ⟨false, true⟩)]
+    let l3 : Itp.Labs := [(1, ⟨false, true⟩, ⟨false, true⟩)]
+    let n := Itp.Node2.res (.res (.leaf [⟨0, false⟩] .first l1) (.leaf [⟨0, true⟩, ⟨1, false⟩] .middle l2) 0)
+      (.leaf [⟨1, true⟩] .last l3) 1
+    n.labelsOK = true ∧ n.proj1.structOk = true ∧ n.proj1.clause = [] ∧
+      (∀ a b : Bool, n.proj1.itp.eval (fun v => if v = 0 then a else b) = a ∧
+        n.proj2.itp.eval (fun v => if v = 0 then a else b) = b) := by decide
 
 end Osmt.Properties
